@@ -43,4 +43,48 @@ theorem no_write_after_failure (cfg : Cfg) (k : Nat) (hk : k < (plan cfg).length
 /-- non-vacuity: a direct dial with a timeout whose reply read fails -/
 example : exec (plan ⟨false, true, false⟩) (some 2) = ⟨[.sdD, .w, .r, .c], false, true⟩ := by decide
 
+/-! ### non-vacuity -/
+section NonVacuity
+set_option linter.defProp false
+
+/-- a client dial through a plain HTTP CONNECT proxy with a handshake timeout:
+    plan = [sdD, w, r, w, r, sd0] -/
+def witCfg : Cfg := ⟨false, true, true⟩
+/-- an Upgrade (server side) with a handshake timeout: plan = [swdD, w, swd0] -/
+def witSrv : Cfg := ⟨true, true, false⟩
+/-- witness for `fail_closes` / `no_write_after_failure`: operation 3 (the write of the upgrade
+    request after the CONNECT exchange) is in the middle of the six-operation plan -/
+def witCfg_k : 3 < (plan witCfg).length := by decide
+
+/-- the plan of the witness configuration -/
+example : plan witCfg = [.sdD, .w, .r, .w, .r, .sd0] := by decide
+
+/-- non-vacuity of `fail_closes`: proxy + timeout dial whose 4th operation (k = 3) fails -/
+example : (exec (plan witCfg) (some 3)).returned = false ∧ (exec (plan witCfg) (some 3)).closed = true ∧
+    (exec (plan witCfg) (some 3)).ops = (plan witCfg).take (3 + 1) ++ [.c] :=
+  fail_closes witCfg 3 witCfg_k
+/-- concrete value of the `fail_closes` witness -/
+example : exec (plan witCfg) (some 3) = ⟨[.sdD, .w, .r, .w, .c], false, true⟩ := by decide
+/-- non-vacuity of `fail_closes`: Upgrade with timeout whose response write (k = 1) fails -/
+example : (exec (plan witSrv) (some 1)).returned = false ∧ (exec (plan witSrv) (some 1)).closed = true ∧
+    (exec (plan witSrv) (some 1)).ops = (plan witSrv).take (1 + 1) ++ [.c] :=
+  fail_closes witSrv 1 (by decide)
+
+/-- instance of `success_open_no_deadline` (no hypotheses) on the proxy + timeout dial -/
+example : ((exec (plan witCfg) none).ops.filter isDeadlineOp).getLast? = some .sd0 := by decide
+
+/-- non-vacuity of `ops_under_deadline`: a client configuration (proxy) with a timeout -/
+example : (plan witCfg).head? = some .sdD := ops_under_deadline witCfg rfl rfl
+/-- non-vacuity of `ops_under_deadline`: a direct dial with a timeout -/
+example : (plan ⟨false, true, false⟩).head? = some .sdD := ops_under_deadline ⟨false, true, false⟩ rfl rfl
+
+/-- non-vacuity of `no_write_after_failure`: proxy + timeout dial, k = 3 in the middle of the plan -/
+example : ((exec (plan witCfg) (some 3)).ops.drop (3 + 1)) = [.c] :=
+  no_write_after_failure witCfg 3 witCfg_k
+/-- non-vacuity of `no_write_after_failure`: Upgrade with timeout whose response write (k = 1) fails -/
+example : ((exec (plan witSrv) (some 1)).ops.drop (1 + 1)) = [.c] :=
+  no_write_after_failure witSrv 1 (by decide)
+
+end NonVacuity
+
 end WS.Props.C16
